@@ -30,7 +30,17 @@ pub struct C20Case {
     pub amp: u8,
     /// streams of 64 KiB instead of the 4 MB default
     pub small_streams: bool,
+    /// 0: the transmission is followed by trailing flags (more signal follows);
+    /// 1: it ends after the last frame's separating flags and exact digital silence
+    ///    follows (squelched receiver, padded recording); 2: as 1, with exactly the closing
+    ///    flag and one idle flag after the last frame
+    #[serde(default)]
+    pub tail: u8,
+    /// samples of exact silence before the transmission (tail != 0 only)
+    #[serde(default)]
+    pub lead_silence: u16,
 }
+const TAIL_SILENCE: usize = 16_000;
 
 const RATES_1200: [f32; 3] = [44100.0, 48000.0, 50000.0];
 const RATES_9600: [f32; 2] = [50000.0, 100000.0];
@@ -49,8 +59,9 @@ fn case_strategy() -> BoxedStrategy<C20Case> {
         any::<u16>(),
         any::<u8>(),
         prop::bool::weighted(0.3),
+        (prop_oneof![3 => Just(0u8), 1 => Just(1u8), 2 => Just(2u8)], 0u16..8192),
     )
-        .prop_map(|(chain, rate_idx, frames, preamble_flags, phase, timing, amp, small_streams)| C20Case {
+        .prop_map(|(chain, rate_idx, frames, preamble_flags, phase, timing, amp, small_streams, (tail, lead_silence))| C20Case {
             chain,
             rate_idx,
             frames,
@@ -59,6 +70,8 @@ fn case_strategy() -> BoxedStrategy<C20Case> {
             timing,
             amp,
             small_streams,
+            tail,
+            lead_silence,
         })
         .boxed()
 }
@@ -73,11 +86,15 @@ pub fn tx_bits(c: &C20Case) -> Vec<u8> {
     for _ in 0..c.preamble_flags.max(20) {
         bits.extend(FLAG_BITS);
     }
-    for f in &c.frames {
+    for (i, f) in c.frames.iter().enumerate() {
         bits.extend(hdlc_stuffed_bits(&hdlc_with_fcs(&f.payload())));
-        for _ in 0..f.sep_flags.max(2) {
+        let sep = if c.tail == 2 && i + 1 == c.frames.len() { 2 } else { f.sep_flags.max(2) };
+        for _ in 0..sep {
             bits.extend(FLAG_BITS);
         }
+    }
+    if c.tail != 0 {
+        return bits;
     }
     // trailing flags: the chains have no end-of-input flush (FftFilter keeps a partial
     // block), so a frame is only delivered if more signal follows it
@@ -111,6 +128,12 @@ pub fn afsk_1200(c: &C20Case) -> Vec<f32> {
         }
         out.push((amp * phase.cos()) as f32);
     }
+    if c.tail != 0 {
+        let mut v = vec![0.0f32; c.lead_silence as usize];
+        v.extend(out);
+        v.extend(std::iter::repeat(0.0f32).take(TAIL_SILENCE));
+        return v;
+    }
     out
 }
 
@@ -132,6 +155,12 @@ pub fn fsk_9600(c: &C20Case) -> Vec<Complex> {
             phase += std::f64::consts::TAU;
         }
         out.push(Complex::new((amp * phase.cos()) as f32, (amp * phase.sin()) as f32));
+    }
+    if c.tail != 0 {
+        let mut v = vec![Complex::default(); c.lead_silence as usize];
+        v.extend(out);
+        v.extend(std::iter::repeat(Complex::default()).take(4 * TAIL_SILENCE));
+        return v;
     }
     out
 }
@@ -230,12 +259,13 @@ impl Prop for C20 {
         case_strategy()
     }
     fn cases(&self, tier: Tier) -> u64 {
-        tier.pick(240, 6_000)
+        tier.pick(400, 6_000)
     }
     fn run(&self, c: &C20Case, ctx: &mut Ctx) {
         let chain = if c.chain % 2 == 0 { "1200-afsk" } else { "9600-g3ruh" };
         let sr = rate_of(c);
         ctx.class(format!("chain={chain} rate={sr}"));
+        ctx.class(["tail=flags", "tail=silence", "tail=closing+1-flag+silence"][c.tail.min(2) as usize].to_string());
         let want: Vec<Vec<u8>> = c.frames.iter().map(|f| f.payload()).collect();
         let non_integer_sps = (sr / if c.chain % 2 == 0 { 1200.0 } else { 9600.0 }).fract() != 0.0;
         if want.iter().any(|p| p.len() >= 100) || want.len() >= 3 || non_integer_sps {
@@ -280,12 +310,12 @@ impl Prop for C20 {
         }
     }
     fn rule(&self) -> String {
-        "generated: 1-8 frames with payloads of 10-300 bytes (random and stuffing-heavy), >= 2 flags between frames, 20-100 preamble flags, framed by the independent HDLC framer, then (a) NRZI -> Bell-202 continuous-phase AFSK (1200/2200 Hz) real audio at 44100/48000/50000 Hz or (b) G3RUH scrambler -> NRZI -> continuous-phase 2-FSK +-3 kHz complex baseband at 50000/100000 Hz, with generated start phase, sub-sample symbol timing offset and amplitude 0.3-0.9, followed by trailing flags (the chains have no end-of-input flush); fed through the receive chains assembled from library blocks with the examples' parameters (1200: Hilbert(65) -> QuadratureDemod -> FftFilterFloat(low_pass 1100/100) -> add_const(-center) -> SymbolSync(0.5, [0.5,0.5]) -> BinarySlicer -> NrziDecode -> HdlcDeframer(10,1500); 9600: FftFilter(low_pass 12500/100) -> RationalResampler(50k) -> QuadratureDemod -> ZeroCrossing -> BinarySlicer -> NrziDecode -> Descrambler(0x21,0,16) -> HdlcDeframer(10,1500)) on Graph and on MTGraph (real threads), with 4 MB or 64 KiB streams. Oracle: delivered packets == transmitted payloads, each exactly once, in order, identical bytes, nothing else, same on both runners. Non-trivial: a frame >= 100 bytes, or >= 3 frames, or non-integer samples per symbol; distinct = hash of the case.".into()
+        "generated: 1-8 frames with payloads of 10-300 bytes (random and stuffing-heavy), >= 2 flags between frames, 20-100 preamble flags, framed by the independent HDLC framer, then (a) NRZI -> Bell-202 continuous-phase AFSK (1200/2200 Hz) real audio at 44100/48000/50000 Hz or (b) G3RUH scrambler -> NRZI -> continuous-phase 2-FSK +-3 kHz complex baseband at 50000/100000 Hz, with generated start phase, sub-sample symbol timing offset and amplitude 0.3-0.9, followed either by trailing flags (the chains have no end-of-input flush) or - half of the cases - by exact digital silence (16 000 / 64 000 zero samples, with 0-8191 samples of silence in front) right after the last frame's separating flags, in a third of all cases after exactly the closing flag plus one idle flag; fed through the receive chains assembled from library blocks with the examples' parameters (1200: Hilbert(65) -> QuadratureDemod -> FftFilterFloat(low_pass 1100/100) -> add_const(-center) -> SymbolSync(0.5, [0.5,0.5]) -> BinarySlicer -> NrziDecode -> HdlcDeframer(10,1500); 9600: FftFilter(low_pass 12500/100) -> RationalResampler(50k) -> QuadratureDemod -> ZeroCrossing -> BinarySlicer -> NrziDecode -> Descrambler(0x21,0,16) -> HdlcDeframer(10,1500)) on Graph and on MTGraph (real threads), with 4 MB or 64 KiB streams. Oracle: delivered packets == transmitted payloads, each exactly once, in order, identical bytes, nothing else, same on both runners. Non-trivial: a frame >= 100 bytes, or >= 3 frames, or non-integer samples per symbol; distinct = hash of the case.".into()
     }
     fn assumptions(&self) -> Vec<String> {
         vec![
             "the 9600-baud chain uses the ZeroCrossing block (the property's 'zero-crossing clock recovery'), not the example's literal SymbolSync(IirFilter[0.0001, 0.99999999])".into(),
-            "a frame counts as transmitted 'with more signal following': >= 40 (1200 baud) / 300 (9600 baud) trailing flags, because FftFilter never flushes its last partial block".into(),
+            "a frame counts as transmitted 'with more stream following': >= 40 (1200 baud) / 300 (9600 baud) trailing flags, or the closing flag, >= 1 idle flag and 16 000 / 64 000 samples of silence, because FftFilter never flushes its last partial block (30 000 generated silence-tail cases decoded completely on the unchanged tree before the mode was enabled)".into(),
             "noiseless, constant-amplitude signals without frequency offset".into(),
         ]
     }
